@@ -164,10 +164,12 @@ Mutate(f) == /\ phase = "build" /\ WellFormed(comps)
              /\ UNCHANGED <<comps, order, out>>
 
 PlainKinds == {"none", "drop", "rename", "restage", "cycle", "dup"}
-NextV == \/ \E n \in Names, s \in Stages, r \in RepChoices, g \in AggChoices :
-              AddComponent(n, s, r, g) /\ UNCHANGED <<mw, fault, verdict>>
-         \/ \E p \in 1..MaxComps, sp \in Spellings, pa \in Paths, m \in Methods, st \in ArgStyles :
-              AddRef(p, sp, pa, m, st) /\ UNCHANGED <<mw, fault, verdict>>
+(* the builder actions of Replicate, leaving the new variables alone *)
+AddComponentV(n, s, r, g) == AddComponent(n, s, r, g) /\ UNCHANGED <<mw, fault, verdict>>
+AddRefV(p, sp, pa, m, st) == AddRef(p, sp, pa, m, st) /\ UNCHANGED <<mw, fault, verdict>>
+
+NextV == \/ \E n \in Names, s \in Stages, r \in RepChoices, g \in AggChoices : AddComponentV(n, s, r, g)
+         \/ \E p \in 1..MaxComps, sp \in Spellings, pa \in Paths, m \in Methods, st \in ArgStyles : AddRefV(p, sp, pa, m, st)
          \/ \E k \in FaultKinds \cap PlainKinds, i \in 0..MaxComps, j \in 0..MaxComps :
               Mutate([kind |-> k, i |-> i, j |-> j, site |-> ""])
          \/ \E k \in FaultKinds \cap {"key"}, i \in 1..MaxComps, site \in KeySites :
